@@ -268,4 +268,25 @@ theorem olivine_refines_spec (t : Fin 4 → Option ℝ) (htpos : ∀ s x, t s = 
   rw [(softest_is_least_squares _ L hguard).1, orientationChange_eq_spec,
     energy_eq_spec t htpos]
 
+/-- **the enstatite kernel refines the published model**: exclusively (100)[001] slip, active when
+its invariant exceeds the 1e-15 threshold; then the same Schmid tensor / least-squares slip rate /
+lattice spin / energy as for olivine. -/
+theorem enstatite_refines_spec (t : Fin 4 → Option ℝ) (htpos : ∀ s x, t s = some x → 0 < x)
+    (A D L : Mat3) (p n lam : ℝ)
+    (hnz : allZero4 (slipInvariants D A) = false)
+    (hguard : ¬ (-1e-15 < softestDenom (schmid A (slipRatesEnstatite (invariant D A))) ∧
+      softestDenom (schmid A (slipRatesEnstatite (invariant D A))) < 1e-15)) :
+    rotationAndStrainCore 1 (fun s => tauOf (t s)) A D L p n lam =
+      (latticeRate A L (schmid A (slipRatesEnstatite (invariant D A)))
+          (gamma0 (schmid A (slipRatesEnstatite (invariant D A))) L),
+       energy t (slipRatesEnstatite (invariant D A))
+          (gamma0 (schmid A (slipRatesEnstatite (invariant D A))) L) p n lam) := by
+  have hI : slipInvariants D A = invariant D A := funext (invariants_eq_spec D A)
+  unfold rotationAndStrainCore
+  simp only [vec4memo_eq, hnz, Bool.false_eq_true, if_false, show ((1:Int) = 0) = False by simp, hI]
+  simp only [rotationFromRates, vec4memo_eq, Mat3.memo_eq, deformationRate_eq_spec]
+  rw [(softest_is_least_squares _ L hguard).1, orientationChange_eq_spec, energy_eq_spec t htpos]
+  rw [hI] at hnz
+  simp [hnz]
+
 end ModelR
